@@ -117,6 +117,12 @@ func typeIsUnpacker(t reflect.Type) (reflect.Value, bool) {
 }
 
 func implementsUnpacker(t reflect.Type) bool {
+	// an interface type has no value of its own an Unpack method could be
+	// called on: what it holds is looked at instead
+	if t.Kind() == reflect.Interface {
+		return false
+	}
+
 	// ucfg.Config or structures that can be casted to ucfg.Config are not
 	// Unpackers.
 	if tConfig.ConvertibleTo(chaseTypePointers(t)) {
